@@ -103,9 +103,15 @@ def category_test(lcat, P):
     return "categories-chi2", float(stats.chisquare(obs[keep], exp).pvalue)
 
 
-def folded_cdf(mu, sd):
+def folded_cdf(mu, sd, precision=0.0):
+    """CDF of |N(mu, sd)| conditioned on being >= precision (values below the precision are redrawn)"""
     from scipy.stats import norm
-    return lambda x: np.where(np.asarray(x) < 0, 0.0, norm.cdf((np.asarray(x) - mu) / sd) - norm.cdf((-np.asarray(x) - mu) / sd))
+
+    def F(x):
+        x = np.asarray(x, dtype=float)
+        return np.where(x < 0, 0.0, norm.cdf((x - mu) / sd) - norm.cdf((-x - mu) / sd))
+    f0 = float(F(precision))
+    return lambda x: np.clip((F(x) - f0) / (1.0 - f0), 0.0, 1.0)
 
 
 def draw_library(smp, M, gt_names, cat_index, precision, allowed_cats):
@@ -143,7 +149,7 @@ def decide(lib, candidates, gt_names, M, precision, sim_seed, classes, what):
         name, p = category_test(lib[3], P)
         best[name] = max(best.get(name, 0.0), p)
         if P["d_sd"] > 0 and len(lib[1]) > 0:
-            p = stats.kstest(lib[1], folded_cdf(P["d_mu"], P["d_sd"])).pvalue
+            p = stats.kstest(lib[1], folded_cdf(P["d_mu"], P["d_sd"], precision)).pvalue
             best["durations-vs-folded-normal"] = max(best.get("durations-vs-folded-normal", 0.0), p)
     for name, p in best.items():
         if p < ALPHA:
@@ -178,6 +184,8 @@ def check_custom(case):
     differs = abs(P["g_mu"] - P["d_mu"]) >= 0.25 * max(abs(P["d_mu"]), 1e-9) or abs(P["g_sd"] - P["d_sd"]) >= 0.25 * max(P["d_sd"], 1e-9)
     if w is not None and any(x == 0 for x in w):
         classes.append("zero-weight")
+    if P["d_mu"] < 1e-3:
+        classes.append("durations-near-segment-precision")
     return {"nontrivial": unequal and differs and len(lib[1]) >= 1500, "classes": classes}
 
 
@@ -259,6 +267,10 @@ def custom_cases(draw):
               "g_mu": draw(f2(-2, 20)), "g_sd": draw(st.one_of(st.just(0.0), f2(0, 6))),
               "d_mu": draw(f2(0.5, 20)), "d_sd": draw(st.one_of(st.just(0.0), f2(0, 5))),
               "categories": cats, "weights": weights}
+    if draw(st.integers(0, 9)) == 0:
+        # durations of the order of pyannote's segment precision (1e-6): the redraw-below-precision rule matters here
+        params["d_mu"], params["d_sd"] = draw(st.sampled_from([0.0, 1e-6, 2e-6])), draw(st.sampled_from([1e-6, 2e-6, 5e-6]))
+        params["g_mu"], params["g_sd"] = draw(st.sampled_from([1e-5, 1.0])), draw(st.sampled_from([0.0, 1e-6]))
     return {"annotators": list(names), "params": params, "seed": draw(st.integers(0, 2 ** 31 - 1)), "sim_seed": draw(st.integers(0, 2 ** 31 - 1))}
 
 
